@@ -114,7 +114,9 @@ pub fn judge(text: &str, obs: &Obs, known: &HashSet<String>, undecided: &mut u64
                 bad.push((format!("placeholder:{}", f.code), format!("{} message contains `%{{`: {:?}", f.short(), f.msg)));
             }
         }
-        if f.msg.contains("{}") {
+        // `{{}}` is not a placeholder: the message templates write literal braces doubled
+        // (`'\\u{{%{unicode_hex}}}'`) and the substituted value may be empty
+        if f.msg.replace("{{}}", "").contains("{}") {
             if text.contains('{') {
                 *undecided += 1;
             } else {
